@@ -475,4 +475,34 @@ theorem neg_inR (t : ITy) (hs : t.sg = true) (_hw : 1 ≤ t.w) (x : Int) (hx : t
   simp only [hs, if_true] at *
   omega
 
+/-! ## division -/
+
+
+/-- the truncated quotient of two values of a type is a value of the type, except for `min / -1` -/
+theorem tdiv_inR (t : ITy) (hw : 1 ≤ t.w) (x y : Int) (hx : t.inR x = true) (hy : t.inR y = true) (hy0 : y ≠ 0)
+    (hex : ¬ (t.sg = true ∧ x = t.min ∧ y = -1)) : t.inR (Int.tdiv x y) = true := by
+  have h2 := two_pow_split t.w hw
+  have hp : (0:Int) < 2^(t.w-1) := Int.pow_pos (by decide)
+  cases hs : t.sg
+  · have hx0 := nonneg_of_unsigned t hs x hx
+    have hy0' := nonneg_of_unsigned t hs y hy
+    rw [inR_iff] at *
+    have h1 : 0 ≤ Int.tdiv x y := Int.tdiv_nonneg hx0 hy0'
+    have h3 : Int.tdiv x y ≤ x := Int.tdiv_le_self y hx0
+    unfold ITy.min at *; simp only [hs] at *; simp at *; omega
+  · have hq : (Int.tdiv x y).natAbs = x.natAbs / y.natAbs := Int.natAbs_tdiv x y
+    rw [inR_iff] at *
+    unfold ITy.min ITy.max at *
+    simp only [hs, if_true, true_and] at *
+    by_cases hy1 : y.natAbs = 1
+    · have : y = 1 ∨ y = -1 := by omega
+      rcases this with h | h
+      · subst h; rw [Int.tdiv_one]; omega
+      · subst h
+        have : Int.tdiv x (-1) = -x := by rw [Int.tdiv_neg, Int.tdiv_one]
+        rw [this]; omega
+    · have hy2 : 2 ≤ y.natAbs := by omega
+      have : x.natAbs / y.natAbs ≤ x.natAbs / 2 := Nat.div_le_div_left hy2 (by decide)
+      omega
+
 end Tetl.C14
